@@ -176,7 +176,8 @@ impl Client {
                 let error_msg = e.to_string();
                 let error = AnyTlsError::Protocol(error_msg.clone());
                 stream.close_with_error(error).await;
-                // Only the stream failed: the session stays usable for later requests
+                // Only the stream failed: both sides drop its state (FIN), the session stays usable for later requests
+                stream.send_fin();
                 self.release_session(session).await;
                 Err(AnyTlsError::Protocol(error_msg))
             }
@@ -184,6 +185,7 @@ impl Client {
                 tracing::error!("[Client] SYNACK channel closed for stream {}", stream_id);
                 let error = AnyTlsError::Protocol("SYNACK channel closed".into());
                 stream.close_with_error(error).await;
+                stream.send_fin();
                 self.release_session(session).await;
                 Err(AnyTlsError::Protocol("SYNACK channel closed".into()))
             }
@@ -197,6 +199,7 @@ impl Client {
                     format!("SYNACK timeout after {}s", DEFAULT_SYNACK_TIMEOUT.as_secs());
                 let error = AnyTlsError::Protocol(error_msg.clone());
                 stream.close_with_error(error).await;
+                stream.send_fin();
                 self.release_session(session).await;
                 Err(AnyTlsError::Protocol(error_msg))
             }
